@@ -9,59 +9,7 @@ LEVEL_NOTE = ("fragments are the SourceMap.Add calls of the model (validated aga
 FRAGMENT_TOKENS = {"Package", "Import", "GoCode", "GohtStart", "Script", "SilentScript", "DynamicText", "AttrDynamicValue", "ObjectRef", "RenderCommand"}
 
 
-def coverage(chk, c, ri):
-    """every fragment token of the real lexer is covered by the real map"""
-    toks = common.run_lines(common.IMPLRUN, ["tokens " + hx(c)])[0]
-    fails = []
-    for t in toks.split(";"):
-        p = t.split(":")
-        if len(p) != 4 or p[0] not in FRAGMENT_TOKENS:
-            continue
-        lit, line, col = unhx(p[1]), int(p[2]), int(p[3])
-        if not c16.is_ascii(lit):
-            continue
-        chk.count("fragment:" + p[0])
-        parts = [(lit, 0)]
-        if p[0] in ("DynamicText", "Script", "AttrDynamicValue") and lit.startswith(b"%") and b" " in lit and b"\n" not in lit:
-            i = lit.index(b" ")
-            if i >= 2 and len(lit) > i + 1:
-                parts = [(lit[:i], 0), (lit[i + 1:], i + 1)]   # verb and expression are mapped separately
-        if p[0] == "SilentScript":
-            parts = [(lit.strip(), 0)] if lit.strip() == lit.rstrip() else parts
-        for frag, off in parts:
-            for idx, ln in enumerate(frag.split(b"\n")):
-                sl = line + idx - 1
-                sc0 = (col - 1 + off) if idx == 0 else 0
-                for k in range(1, len(ln)):          # positions strictly inside
-                    if (sl, sc0 + k) not in ri.s2t:
-                        fails.append("position %d:%d inside %s fragment %r is not covered by the map" % (sl, sc0 + k, p[0], frag[:40]))
-                        break
-    return fails
-
-
 def run(chk):
-    rc_holder = {}
-    orig_finish = chk.finish
-
-    def finish(level="proof", level_note="", search_fn=None):
-        return orig_finish(level=level, level_note=level_note, search_fn=search_fn)
-
-    # coverage pass first (needs built binaries), then the shared table oracle
-    br = common.build_all()
-    quick = chk.tier == "quick"
-    if br.go_ok:
-        base = c16.sm_corpus(chk, quick)
-        res = lcompile.run_both(base[:: (2 if quick else 1)], want_model=False)
-        n = 0
-        for c, ri, _ in res:
-            if ri.cls == "done" and ri.perr == "ok" and c16.is_ascii(c):
-                for msg in coverage(chk, c, ri)[:3]:
-                    n += 1
-                    if n <= 3:
-                        chk.violation("oracle", msg, input_hex=hx(c), input_text=c.decode("utf-8", "replace")[:700])
-    # re-seed so that the table pass sees the same corpus
-    import random
-    chk.rng = random.Random(chk.seed * 1000003 + int(chk.pid[1:]))
     return c16.run(chk, want=("c07",), level_note=LEVEL_NOTE)
 
 
